@@ -3,4 +3,4 @@
 Require Import ExtrOcamlBasic.
 From Biscuit Require Import Model.ExprCases.
 Extraction Language OCaml.
-Extraction "biscuit_model.ml" ecase_failures.
+Extraction "model_expr.ml" ecase_failures.
